@@ -137,8 +137,31 @@ func latticePolygon(t *rapid.T, ox int) [][]vkit.P2 {
 	}
 	W, H := rapid.IntRange(6, 30).Draw(t, "W"), rapid.IntRange(6, 20).Draw(t, "H")
 	m := 6
+	if W >= 8 && H >= 8 && rapid.IntRange(0, 14).Draw(t, "corners") == 9 {
+		// a rectangle with a small triangular hole AT a drawn subset of its corners (the hole's vertex is the shell's
+		// vertex: the rings touch in a point, the polygon stays valid) - with all four, every vertex of the shell lies on
+		// another ring
+		rings := [][]vkit.P2{{ip(ox, 0), ip(ox+W, 0), ip(ox+W, H), ip(ox, H)}}
+		all := rapid.Bool().Draw(t, "allcorners")
+		for k, cn := range [][4]int{{0, 0, 1, 1}, {W, 0, -1, 1}, {W, H, -1, -1}, {0, H, 1, -1}} {
+			if all || rapid.Bool().Draw(t, "corner") {
+				hole := []vkit.P2{ip(ox+cn[0], cn[1]), ip(ox+cn[0]+2*cn[2], cn[1]+cn[3]), ip(ox+cn[0]+cn[2], cn[1]+2*cn[3])}
+				if k%2 == 1 { // keep every hole counter-clockwise like the hulls (the orbit code reverses from there)
+					hole[1], hole[2] = hole[2], hole[1]
+				}
+				rings = append(rings, hole)
+			}
+		}
+		return rings
+	}
 	var shell []vkit.P2
+	touch := 1 // y of the corner-pair triangle's first vertex: 1 = clear of the shell, 0 = ON the shell's lower edge
 	if rapid.Bool().Draw(t, "staircase") {
+		if rapid.IntRange(0, 2).Draw(t, "touching") == 1 {
+			// a hole may touch the shell in a point (the polygon stays valid): one vertex of the triangular hole lies on
+			// the lower edge y = 0, between two shell vertices
+			touch = 0
+		}
 		// lower edge y=0 from x=0..W, upper chain x-monotone from W back to 0 with heights in [H+1,H+m]
 		shell = append(shell, ip(ox, 0), ip(ox+W, 0))
 		xs := []int{W}
@@ -173,10 +196,10 @@ func latticePolygon(t *rapid.T, ox int) [][]vkit.P2 {
 				continue
 			}
 			x0, x1 := k*cw+1, (k+1)*cw-1
-			if x1-x0 >= 5 && H >= 8 && rapid.IntRange(0, 3).Draw(t, "cornerpair") == 2 {
+			if x1-x0 >= 5 && H >= 8 && (rapid.IntRange(0, 3).Draw(t, "cornerpair") == 2 || touch == 0) {
 				// two disjoint holes with NESTED bounding boxes: a right triangle filling the lower-left half of the cell and
 				// a small square in the upper-right corner that the triangle leaves free
-				rings = append(rings, []vkit.P2{ip(ox+x0, 1), ip(ox+x1, 1), ip(ox+x0, H-1)}, []vkit.P2{ip(ox+x1-1, H-2), ip(ox+x1, H-2), ip(ox+x1, H-1), ip(ox+x1-1, H-1)})
+				rings = append(rings, []vkit.P2{ip(ox+x0, touch), ip(ox+x1, 1), ip(ox+x0, H-1)}, []vkit.P2{ip(ox+x1-1, H-2), ip(ox+x1, H-2), ip(ox+x1, H-1), ip(ox+x1-1, H-1)})
 				continue
 			}
 			var hp []vkit.P2
